@@ -7,6 +7,8 @@ import Vet.Model.Update
 import Vet.Model.Imports
 import Vet.Model.Validate
 import Vet.Model.Aggregate
+import Vet.Model.Registry
+import Vet.Model.Suggest
 namespace Vet.Wire
 open Vet
 
@@ -311,6 +313,36 @@ def aggTableToks (t : List (Nat × List Agg.Entry)) : List Nat :=
 def aggResultToks (r : Agg.Result) : List Nat :=
   [r.criteria.length] ++ r.criteria.flatMap (fun c => [c.name, c.desc, c.descUrl] ++ listToks c.implies ++ listToks c.from_)
   ++ aggTableToks r.audits ++ aggTableToks r.wildcards ++ aggTableToks r.trusted
+
+def optNatList : P (Option (List Nat)) := do
+  let x ← nat
+  if x = 0 then pure none else some <$> list nat
+
+def firstParty : P Reg.FirstParty := do
+  let n ← nat
+  let v ← nat
+  let g ← bool
+  let a ← optBool
+  let p ← optNatList
+  let m ← bool
+  pure ⟨n, v, g, a, p, m⟩
+
+def unpubEntry : P Reg.UnpubEntry := do
+  let n ← nat
+  let v ← nat
+  let a ← nat
+  let f ← bool
+  let s ← bool
+  pure ⟨n, v, a, f, s⟩
+
+def optVerList : P (List (Option Nat)) := do
+  let l ← list nat
+  pure (l.map (fun k => if k = 0 then none else some (k - 1)))
+
+def sugFailure : P Sug.Failure := do
+  let r ← optVerList
+  let t ← optVerList
+  pure ⟨r, t⟩
 
 def resultToks : PkgResult → List Nat
   | .firstParty => [0]
